@@ -58,7 +58,8 @@ def i32 (site : String) (x : Int) : Out Int := if -(2 : Int) ^ 31 ≤ x ∧ x < 
 
 /-! ## `AddressType::from_slice` and `Address::from_bytes` (src/util/address.rs) -/
 
-/-- `AddressType::from_slice` with `bytes[0]` and `&bytes[65..73]` explicit (bounds from the regenerated table) -/
+/-- `AddressType::from_slice` with `bytes[0]`, `&bytes[65..73]` and the length assertion of `PaymentId::from_slice` explicit
+(bounds from the regenerated table) -/
 def addrTypeOfP (net : Net) (bytes : Bytes) : Out (Kind × Bytes) :=
   if bytes.isEmpty then .err else
   (idx "AddressType::from_slice: bytes[0]" bytes 0).bind fun b =>
@@ -66,7 +67,10 @@ def addrTypeOfP (net : Net) (bytes : Bytes) : Out (Kind × Bytes) :=
   | none => .err
   | some (k, minLen, lo, hi) =>
     if bytes.length < minLen then .err
-    else (slice "AddressType::from_slice: &bytes[65..73]" bytes lo hi).bind fun pid => .ok (k, pid)
+    else (slice "AddressType::from_slice: &bytes[65..73]" bytes lo hi).bind fun pid =>
+      -- `PaymentId::from_slice(&bytes[65..73])` in the Integrated arms: fixed-hash `assert_eq!(src.len(), 8)` — the LENGTH of the
+      -- regenerated range is a panic site of its own (`&bytes[65..72]` is a legal slice and a panicking payment id)
+      if k = .Integrated ∧ pid.length ≠ 8 then .panic "PaymentId::from_slice: assert_eq!(src.len(), 8)" else .ok (k, pid)
 
 /-- `Address::from_bytes` with its eight index / slice expressions explicit; `H` = `keccak_256` (a 32-byte array in the
 library; the theorem asks for at least 4 bytes) -/
@@ -250,5 +254,48 @@ def txP (b : Bytes) : Out (Tx × Bytes) :=
       (if inputs > 0 then mixinAtP p.ins else .ok 0).bind fun mixin =>
       (prunableP bs.ty inputs outputs mixin r1).bind fun (pr, r2) => .ok (⟨p, [], some bs, pr⟩, r2)
     else .ok (⟨p, [], some bs, none⟩, r1)
+
+/-! ## formatting and signed parsing of amounts (src/util/amount.rs): `fmt_piconero_in` (`real.len() - nb_decimals` on
+`usize`, three `str` slices of the zero-padded numeral), `SignedAmount::fmt_value_in` (`u64::MAX - x + 1` for `i64::MIN`),
+`SignedAmount::from_str_in` (`-(piconero as i64)`) -/
+
+/-- checked-profile `i64` negation: panics for `i64::MIN` only -/
+def negI64 (site : String) (x : Int) : Out Int := if x = -(2 : Int) ^ 63 then .panic site else .ok (-x)
+
+/-- `fmt_piconero_in` (amount.rs:195-229). `precision as usize` (a cast: wraps, never panics) is taken in the `Greater`
+arm only, where the value is positive. -/
+def fmtPiconeroInP (piconero : Nat) (negative : Bool) (d : Denom) : Out Bytes :=
+  let sign : Bytes := if negative then [0x2d] else []
+  let precision := precisionOf d
+  if precision > 0 then
+    .ok (sign ++ digits piconero ++ padZero precision.toNat (digits 0))
+  else if precision < 0 then
+    let nb := precision.natAbs
+    let real := padZero nb (digits piconero)
+    if real.length = nb then
+      (subU "fmt_piconero_in: real.len() - nb_decimals" real.length nb).bind fun k =>
+      (strSlice "fmt_piconero_in: &real[real.len() - nb_decimals..]" real k real.length).bind fun frac =>
+      .ok (sign ++ [0x30, 0x2e] ++ frac)
+    else
+      (subU "fmt_piconero_in: real.len() - nb_decimals" real.length nb).bind fun k =>
+      (strSlice "fmt_piconero_in: &real[0..(real.len() - nb_decimals)]" real 0 k).bind fun ip =>
+      (strSlice "fmt_piconero_in: &real[real.len() - nb_decimals..]" real k real.length).bind fun frac =>
+      .ok (sign ++ ip ++ [0x2e] ++ frac)
+  else .ok (sign ++ digits piconero)
+
+/-- `SignedAmount::fmt_value_in` / `to_string_in` (`a` is an `i64`): `checked_abs()` is `None` exactly for `i64::MIN`,
+then `u64::max_value() - self.as_pico() as u64 + 1` on `u64` -/
+def signedToStringInP (a : Int) (d : Denom) : Out Bytes :=
+  (if a = -(2 ^ 63 : Int) then
+     (subU "SignedAmount::fmt_value_in: u64::MAX - (x as u64)" U64MAX (a % (2 ^ 64 : Int)).toNat).bind fun t =>
+     addU 64 "SignedAmount::fmt_value_in: (u64::MAX - x) + 1" t 1
+   else .ok a.natAbs).bind fun picos =>
+  fmtPiconeroInP picos (decide (a < 0)) d
+
+/-- `SignedAmount::from_str_in`: the negation of `piconero as i64` comes after the `> i64::MAX` test -/
+def signedFromStrInP (s : Bytes) (d : Denom) : Out Int :=
+  (parseSignedToPiconeroP s d).bind fun (neg, q) =>
+  if q > I64MAX then .err
+  else if neg then negI64 "SignedAmount::from_str_in: -(piconero as i64)" (q : Int) else .ok (q : Int)
 
 end Monero.Panics
